@@ -15,7 +15,7 @@ RULE = ("fault enumeration on real runs of csvdump/unspentcsvdump/balances. Inpu
         "index offset past EOF}: exit!=0, 'Error at height N' with N = lowest height whose stored bytes are cut, no final-named file. "
         "Output faults: RLIMIT_FSIZE on a grid from 0 to beyond the full output size (short write + EFBIG, SIGXFSZ ignored) and strace-"
         "injected ENOSPC/EIO at the k-th write to an output file for every k, on outputs below the 4 MB writer buffer and of 8-20 MB. "
-        "Crash points: SIGKILL injected at every ordinal of openat/write/rename/close touching an output path. Oracles: (1) outcome: "
+        "Crash points: SIGKILL injected at every ordinal of openat/write/rename/close touching an output path, plus SIGKILL at random instants of multi-MB runs. Oracles: (1) outcome: "
         "(exit 0 and outputs byte-identical to the undisturbed run and no *.tmp) or (exit!=0 and no final-named file); (2) trace spec "
         "over the strace log of every traced run: a final name only ever appears through rename(tmp->final) and no write reaches a file "
         "after it carries its final name; (3) after SIGKILL no final-named file differs from the undisturbed output. "
@@ -161,11 +161,11 @@ def input_case(spec):
             if p.rc == 0:
                 vv.append(viol("input-fault-exit0", "exit 0 although block %d cannot be read (%s)" % (expect_height, what)))
             else:
-                m = ERR_RE.search(p.err)
-                if not m:
+                m = harness.reported_error_height(p.err)
+                if m is None:
                     vv.append(viol("input-fault-no-height", "failure does not report the failing height (%s): %s" % (what, p.err[-200:].replace("\n", " | "))))
-                elif int(m.group(1)) != expect_height:
-                    vv.append(viol("input-fault-wrong-height", "reported height %s, first unreadable block is %d (%s)" % (m.group(1), expect_height, what)))
+                elif m != expect_height:
+                    vv.append(viol("input-fault-wrong-height", "reported height %s, first unreadable block is %d (%s)" % (m, expect_height, what)))
             shapes.add("%s|%s|h=%s|fail" % (cbname, kind, "first" if expect_height == processed[0] else ("last" if expect_height == processed[-1] else "mid")))
         v.extend(vv)
 
@@ -331,6 +331,32 @@ def output_case(spec):
                 if not killed:
                     v.extend(outcome(p, dump, ref, what + " [kill did not fire]"))
                 shapes.add("%s|kill|%s|%s|%s|%s" % (cbname, call, "first" if n == 1 else ("last" if n == N else "mid"), sizecls, "killed" if killed else "survived"))
+    # (e) SIGKILL at random instants (wall-clock), complementing the syscall-boundary enumeration
+    if spec.get("random_kills"):
+        import subprocess
+        import time as _time
+        t0 = _time.time()
+        p = harness.run_cb(binary, d, coin, cbname, harness.fresh(dump))
+        dur = max(0.02, _time.time() - t0)
+        krng = random.Random("C10kill|%s|%s" % (spec["seed"], spec["n"]))
+        for i in range(spec["random_kills"]):
+            harness.fresh(dump)
+            delay = krng.uniform(0, dur * 1.1)
+            pr = subprocess.Popen(argv, stdout=subprocess.DEVNULL, stderr=subprocess.DEVNULL)
+            _time.sleep(delay)
+            pr.kill()
+            rc = pr.wait()
+            counters["runs"] += 1
+            counters["random_kills"] = counters.get("random_kills", 0) + 1
+            if rc == -9:
+                counters["random_kills_hit"] = counters.get("random_kills_hit", 0) + 1
+            have = read_norm(dump)
+            for name, t in have.items():
+                if is_final(name) and (name not in ref or ref[name] != t):
+                    v.append(viol("crash-leaves-partial-final", "after SIGKILL %.3fs into a %s run (%.3fs long) the final-named file %s holds %d bytes, the complete output has %s" % (
+                        delay, cbname, dur, name, len(t), len(ref.get(name, "")) if name in ref else "no such file")))
+                    break
+            shapes.add("%s|random-kill|%s|%s" % (cbname, sizecls, "killed" if rc == -9 else "finished"))
     shutil.rmtree(work, ignore_errors=True)
     return {"evaluations": counters["runs"], "violations": v, "counters": counters, "shapes": sorted(shapes),
             "sample": {"kind": "output", "callback": cbname, "coin": coin, "output_bytes": sizes, "output_writes": len(out_writes), "output_syscalls": len(out_sys)}}
@@ -356,7 +382,7 @@ def plan(chk):
         for mb, faults in ((None, ["fsize", "inject", "kill"]), (110000, ["fsize", "inject", "kill"])):
             n += 1
             specs.append(dict(case="output", callback=cbname, coin=coins[n % 8], seed=chk.seed, chain="out-%d" % n, n=n, mb=mb, faults=faults,
-                              max_k=None if chk.thorough else 8, both_errors=chk.thorough,
+                              max_k=None if chk.thorough else 8, both_errors=chk.thorough, random_kills=(150 if chk.thorough else 12) if mb else 0,
                               fractions=[i / 20 for i in range(1, 20)] if chk.thorough else [0.25, 0.6, 0.9]))
         if chk.thorough:
             for i in range(3):
